@@ -476,6 +476,299 @@ Definition prop_wf_total (c : tg_case) : bool :=
     match tg_dedup c with OOk _ => true | _ => false end
   else true.
 
+(** ** C10, missing settings paths (G4) and dangling ids at every site (G5).
+
+    An independent statement of what [resolve_type_path_recurse] (typegen/src/typegen/mod.rs:327-454)
+    visits, read off the Rust source and written as an ORDER-FREE reachability over the registry - not
+    as a call of the model's [resolve_rec], and not with the model's [collect_children]:
+
+    - an id answered by a parent parameter (same concrete id; at a field's root additionally the
+      recorded type name, if any, must be the parameter's name) is not expanded;
+    - an id without entry fails with TypeNotFound(id);
+    - an entry whose last path segment is [Cow] is replaced by the entry of its first parameter
+      (one level; that id may be missing as well);
+    - then the typed parameters of the entry are visited, then its structural children: the element
+      of a sequence / array, the elements of a tuple, the inner type of a compact (visited BEFORE the
+      compact path is consulted), order and store of a bit sequence (visited only AFTER the bits path
+      was found); composite / variant entries are not descended into;
+    - a compact entry fails with CompactPathNone when the settings have no compact path, a
+      bit-sequence entry with DecodedBitsPathNone when they have no bits path.
+
+    The set of failures met by the closure is collected.  Which failure is REPORTED depends on the
+    visiting order when several different ones are reachable; nothing is claimed then ([DUnsure]).
+    When all reachable failures are one and the same, that one must be observed; when there is none,
+    the call must succeed. *)
+Inductive dfail := FMissing (m : N) | FCompact | FBits | FOther.
+
+Definition dfail_eqb (a b : dfail) : bool :=
+  match a, b with
+  | FMissing x, FMissing y => N.eqb x y
+  | FCompact, FCompact | FBits, FBits | FOther, FOther => true
+  | _, _ => false
+  end.
+
+Definition cow_named (t : ty) : bool :=
+  match t_path t with [] => false | p => String.eqb (last p "") "Cow" end.
+
+(** what one call does with the id it is given: (failures raised at this node, ids it recurses into) *)
+Definition descent_step (r : registry) (s : settings) (id : N) : list dfail * list N :=
+  match resolve r id with
+  | None => ([FMissing id], [])
+  | Some t0 =>
+      let through : ty + dfail :=
+        if cow_named t0 then
+          match t_params t0 with
+          | p0 :: _ =>
+              match tp_ty p0 with
+              | Some i => match resolve r i with Some t => inl t | None => inr (FMissing i) end
+              | None => inr FOther
+              end
+          | [] => inr FOther
+          end
+        else inl t0 in
+      match through with
+      | inr f => ([f], [])
+      | inl t =>
+          let ps := flat_map (fun p => match tp_ty p with Some i => [i] | None => [] end) (t_params t) in
+          match t_def t with
+          | TDComposite _ | TDVariant _ | TDPrimitive _ => ([], ps)
+          | TDSequence e | TDArray _ e => ([], ps ++ [e])
+          | TDTuple es => ([], ps ++ es)
+          | TDCompact e => (match s_compact s with None => [FCompact] | Some _ => [] end, ps ++ [e])
+          | TDBitSeq st od =>
+              match s_bits s with
+              | None => ([FBits], ps)
+              | Some _ => ([], ps ++ [od; st])
+              end
+          end
+      end
+  end.
+
+Fixpoint nodup_keep (seen : list N) (l : list N) : list N :=
+  match l with
+  | [] => []
+  | x :: l' => if existsb (N.eqb x) seen then nodup_keep seen l' else x :: nodup_keep (x :: seen) l'
+  end.
+
+(** closure in rounds: every round expands the not yet expanded ids of the frontier that are not
+    answered by a parent parameter ([stop]); [None] = round budget exhausted *)
+Fixpoint descent_rounds (n : nat) (r : registry) (s : settings) (stop visited frontier : list N)
+  (fails : list dfail) : option (list dfail) :=
+  match nodup_keep (stop ++ visited) frontier with
+  | [] => Some fails
+  | todo =>
+      match n with
+      | O => None
+      | S n' =>
+          let ex := map (descent_step r s) todo in
+          descent_rounds n' r s stop (todo ++ visited) (flat_map snd ex) (flat_map fst ex ++ fails)
+      end
+  end.
+
+Definition all_ref_ids (r : registry) : list N :=
+  flat_map (fun e => flat_map (fun p => match tp_ty p with Some i => [i] | None => [] end) (t_params (snd e)) ++
+                     match t_def (snd e) with
+                     | TDComposite fs => map f_ty fs
+                     | TDVariant vs => flat_map (fun v => map f_ty (v_fields v)) vs
+                     | TDSequence e | TDArray _ e | TDCompact e => [e]
+                     | TDTuple es => es
+                     | TDPrimitive _ => []
+                     | TDBitSeq a b => [a; b]
+                     end) r.
+
+Definition descent_budget (r : registry) : nat := S (List.length r + List.length (all_ref_ids r)).
+
+Inductive dverdict := DClean | DFail (f : dfail) | DUnsure.
+
+Definition verdict_of (fs : option (list dfail)) : dverdict :=
+  match fs with
+  | None => DUnsure
+  | Some [] => DClean
+  | Some (f :: l) =>
+      if forallb (dfail_eqb f) l then match f with FOther => DUnsure | _ => DFail f end else DUnsure
+  end.
+
+(** [resolve_type_path id]: no parent parameters *)
+Definition path_verdict (r : registry) (s : settings) (id : N) : dverdict :=
+  verdict_of (descent_rounds (descent_budget r) r s [] [] [id] []).
+
+(** the typed parameters of an entry: (recorded name, concrete id) *)
+Definition typed_params (t : ty) : list (string * N) :=
+  flat_map (fun p => match tp_ty p with Some i => [(tp_name p, i)] | None => [] end) (t_params t).
+
+(** [resolve_field_type_path] for one field of the entry [t] *)
+Definition field_verdict (r : registry) (s : settings) (t : ty) (f : field) : dverdict :=
+  let ps := typed_params t in
+  if existsb (fun np : string * N =>
+                N.eqb (snd np) (f_ty f) &&
+                match f_type_name f with None => true | Some n => String.eqb (fst np) n end) ps
+  then DClean
+  else
+    let '(f0, ch) := descent_step r s (f_ty f) in
+    verdict_of (descent_rounds (descent_budget r) r s (map snd ps) [f_ty f] ch f0).
+
+(** what the generation loop turns into an item (mod.rs:84-100), restated *)
+Definition loop_item (s : settings) (t : ty) : bool :=
+  match t_def t with TDComposite _ | TDVariant _ => true | _ => false end &&
+  negb (subs_contains (s_subs s) (t_path t)) &&
+  match t_path t with [] | [_] => false | _ => true end.
+
+Definition entry_fields (t : ty) : list field :=
+  match t_def t with
+  | TDComposite fs => fs
+  | TDVariant vs => flat_map v_fields vs
+  | _ => []
+  end.
+
+(** first non-clean verdict among the fields of an entry, in field order *)
+Fixpoint first_unclean (l : list dverdict) : dverdict :=
+  match l with
+  | [] => DClean
+  | DClean :: l' => first_unclean l'
+  | v :: _ => v
+  end.
+
+(** generation visits the entries in registry order and the fields of an item in field order; the
+    first field that is not clean decides.  [may_dup]: an item path was met a second time before that
+    point - [types_equal] is consulted there and may end the run with DuplicateTypePath, about
+    which nothing is said here. *)
+Fixpoint gen_verdict_go (r : registry) (s : settings) (l : registry) (seen : list (list string))
+  (may_dup : bool) : dverdict * bool :=
+  match l with
+  | [] => (DClean, may_dup)
+  | e :: l' =>
+      let t := snd e in
+      if loop_item s t then
+        match first_unclean (map (field_verdict r s t) (entry_fields t)) with
+        | DClean =>
+            if existsb (path_eqb (t_path t)) seen then gen_verdict_go r s l' seen true
+            else gen_verdict_go r s l' (t_path t :: seen) may_dup
+        | v => (v, may_dup)
+        end
+      else gen_verdict_go r s l' seen may_dup
+  end.
+
+Definition gen_verdict (r : registry) (s : settings) : dverdict * bool := gen_verdict_go r s r [] false.
+
+Definition obs_is_fail {A} (f : dfail) (o : obs A) : bool :=
+  match o with
+  | OErr k nums _ =>
+      match f with
+      | FMissing m => String.eqb k "TypeNotFound" && list_eqb N.eqb nums [m]
+      | FCompact => String.eqb k "CompactPathNone" && list_eqb N.eqb nums []
+      | FBits => String.eqb k "DecodedBitsPathNone" && list_eqb N.eqb nums []
+      | FOther => false
+      end
+  | _ => false
+  end.
+
+Definition obs_is_dup {A} (o : obs A) : bool :=
+  match o with OErr k _ _ => String.eqb k "DuplicateTypePath" | _ => false end.
+
+Definition obs_meets {A} (v : dverdict) (o : obs A) : bool :=
+  match v with
+  | DUnsure => true
+  | DClean => match o with OOk _ => true | _ => false end
+  | DFail f => obs_is_fail f o
+  end.
+
+(** [dangling]: the registry has a dangling reference.  [types_equal] walks the fields of the two
+    entries it compares on its own and panics on an id without entry ([expect], utils.rs), so once an
+    item path was met a second time ([snd vd]) nothing is claimed for such a registry (C10 quantifies
+    over bases with unique paths).  Missing settings paths do not concern [types_equal]: there the
+    outcome is the predicted one or DuplicateTypePath. *)
+Definition gen_meets {A} (dangling : bool) (vd : dverdict * bool) (o : obs A) : bool :=
+  if snd vd && dangling then true else
+  match fst vd with
+  | DUnsure => true
+  | DClean => match o with OOk _ => true | _ => snd vd && obs_is_dup o end
+  | DFail f => obs_is_fail f o || (snd vd && obs_is_dup o)
+  end.
+
+(** the base of a single-fault input: redirect every dangling reference to a fresh [u8] entry; the
+    repaired registry must be well-formed (DESIGN 3.1).  Without dangling references this is the
+    registry itself plus an unused entry. *)
+Definition map_field_ids (g : N -> N) (f : field) : field :=
+  mk_field (f_name f) (g (f_ty f)) (f_type_name f) (f_docs f).
+Definition map_def_ids (g : N -> N) (d : typedef) : typedef :=
+  match d with
+  | TDComposite fs => TDComposite (map (map_field_ids g) fs)
+  | TDVariant vs => TDVariant (map (fun v => mk_variant (v_name v) (map (map_field_ids g) (v_fields v))
+                                                        (v_index v) (v_docs v)) vs)
+  | TDSequence t => TDSequence (g t)
+  | TDArray len t => TDArray len (g t)
+  | TDTuple ts => TDTuple (map g ts)
+  | TDPrimitive p => TDPrimitive p
+  | TDCompact t => TDCompact (g t)
+  | TDBitSeq a b => TDBitSeq (g a) (g b)
+  end.
+Definition map_ty_ids (g : N -> N) (t : ty) : ty :=
+  mk_ty (t_path t) (map (fun p => mk_tparam (tp_name p) (option_map g (tp_ty p))) (t_params t))
+        (map_def_ids g (t_def t)) (t_docs t).
+Definition repair_reg (r : registry) : registry :=
+  let n := N.of_nat (List.length r) in
+  map (fun e => (fst e, map_ty_ids (fun i => if N.leb n i then n else i) (snd e))) r ++
+  [(n, mk_ty [] [] (TDPrimitive PU8) [])].
+
+Definition dangling_refs (r : registry) : list N :=
+  filter (fun i => N.leb (N.of_nat (List.length r)) i) (all_ref_ids r).
+
+(** everything else generation depends on is in order: ids = positions, the repaired registry is
+    well-formed, the root is an identifier, no recursive derives (their flattening walks the registry
+    on its own) *)
+Definition descent_base_ok (c : tg_case) : bool :=
+  let r := tg_reg c in
+  let s := settings_of (tg_spec c) in
+  ids_consistent r && wf_regb (repair_reg r) && ident_okb (s_root s) &&
+  match dr_recursive (s_dreg s) with [] => true | _ => false end.
+
+Definition descent_claims (c : tg_case) : bool :=
+  let r := tg_reg c in
+  let s := settings_of (tg_spec c) in
+  Nat.eqb (List.length (tg_paths c)) (List.length r) &&
+  forallb (fun io : N * obs tokens => obs_meets (path_verdict r s (fst io)) (snd io))
+          (combine (ids_of r) (tg_paths c)) &&
+  gen_meets (match dangling_refs r with [] => false | _ => true end) (gen_verdict r s) (tg_gen c).
+
+Definition path_missing (s : settings) : bool :=
+  match s_compact s, s_bits s with Some _, Some _ => false | _, _ => true end.
+
+Definition missing_path_guard (c : tg_case) : bool :=
+  path_missing (settings_of (tg_spec c)) &&
+  match dangling_refs (tg_reg c) with [] => true | _ => false end &&
+  descent_base_ok c.
+
+(** G4: a compact / bit-sequence type without the corresponding configured path *)
+Definition prop_missing_path (c : tg_case) : bool :=
+  if missing_path_guard c then descent_claims c else true.
+
+Definition missing_id_guard (c : tg_case) : bool :=
+  match dangling_refs (tg_reg c) with [_] => true | _ => false end && descent_base_ok c.
+
+(** G5: exactly one dangling reference, at whatever site *)
+Definition prop_missing_id_paths (c : tg_case) : bool :=
+  if missing_id_guard c then descent_claims c else true.
+
+Definition is_dfail (v : dverdict) : bool := match v with DFail _ => true | _ => false end.
+Definition is_dunsure (v : dverdict) : bool := match v with DUnsure => true | _ => false end.
+
+Definition some_path_fails (c : tg_case) : bool :=
+  existsb (fun i => is_dfail (path_verdict (tg_reg c) (settings_of (tg_spec c)) i)) (ids_of (tg_reg c)).
+Definition gen_fails (c : tg_case) : bool :=
+  let vd := gen_verdict (tg_reg c) (settings_of (tg_spec c)) in
+  is_dfail (fst vd) && negb (snd vd && match dangling_refs (tg_reg c) with [] => false | _ => true end).
+
+(** hit counters: the guard holds and an error is actually demanded *)
+Definition hyp_missing_path (c : tg_case) : bool := missing_path_guard c && some_path_fails c.
+Definition hyp_missing_path_gen (c : tg_case) : bool := missing_path_guard c && gen_fails c.
+Definition hyp_missing_id_paths (c : tg_case) : bool := missing_id_guard c && some_path_fails c.
+Definition hyp_missing_id_gen (c : tg_case) : bool := missing_id_guard c && gen_fails c.
+(** ... and how often a claim is forfeited because different failures are reachable *)
+Definition hyp_descent_unsure (c : tg_case) : bool :=
+  (missing_path_guard c || missing_id_guard c) &&
+  (existsb (fun i => is_dunsure (path_verdict (tg_reg c) (settings_of (tg_spec c)) i)) (ids_of (tg_reg c)) ||
+   is_dunsure (fst (gen_verdict (tg_reg c) (settings_of (tg_spec c))))).
+
 (** ** C18: standalone structs *)
 Definition prop_standalone (c : tg_case) : bool :=
   let r := tg_reg c in
